@@ -1,6 +1,6 @@
 (* C13 — Secret key material leaves a handle only via insecure or encrypted
    paths.  Statements only; proofs in proofs/SecretsProofs.v; model in
-   model/Secrets.v on top of model/Untrusted.v (all 39 key types whose parsers
+   model/Secrets.v on top of model/Untrusted.v (all 41 key types whose parsers
    model/Untrusted.v transcribes, and the fallback key for every other URL).
    Material types are ALL natural numbers (proto3 enums are open); 3 and 4 are
    ASYMMETRIC_PUBLIC and REMOTE of proto/tink.proto (public_or_remote). *)
@@ -94,7 +94,7 @@ Theorem C13_write_no_secrets_iff :
 Proof. exact write_no_secrets_iff. Qed.
 Print Assumptions C13_write_no_secrets_iff.
 
-(* ---- every transcribed key type (39 of the 42 registered ones) ---- *)
+(* ---- every transcribed key type (41 of the 42 registered ones) ---- *)
 
 (* Which material a key object holds is decided by its type URL alone: for
    every handle the model accepts, the material type (and the prefix type) each
@@ -107,7 +107,7 @@ Theorem C13_material_is_decided_by_type_url :
 Proof. exact out_material_by_url. Qed.
 Print Assumptions C13_material_is_decided_by_type_url.
 
-(* the table: 15 symmetric, 12 private and 12 public key types; any other URL:
+(* the table: 15 symmetric, 13 private and 13 public key types; any other URL:
    the label *)
 Theorem C13_type_url_material_table :
   Forall (fun u => forall label, url_material u label = km_symmetric) symmetric_urls
@@ -118,7 +118,7 @@ Theorem C13_type_url_material_table :
 Proof. exact url_material_table. Qed.
 Print Assumptions C13_type_url_material_table.
 
-(* The parsers of 34 of the 39 types compare the label with the material of
+(* The parsers of 36 of the 41 types compare the label with the material of
    the type (all but HMAC, AES-CMAC, HKDF-PRF, HMAC-PRF, AES-CMAC-PRF): an
    accepted key of such a type is labelled with what it holds. *)
 Theorem C13_accepted_label_is_material :
@@ -127,7 +127,7 @@ Theorem C13_accepted_label_is_material :
 Proof. exact accepted_label_is_material. Qed.
 Print Assumptions C13_accepted_label_is_material.
 
-(* THE import theorem, for all 39 transcribed key types and the fallback key
+(* THE import theorem, for all 41 transcribed key types and the fallback key
    (this clause was REFUTED before /repo b141c20: the five parsers that ignore
    the label - HMAC, AES-CMAC, HKDF/HMAC/AES-CMAC PRF - let symmetric keys
    labelled ASYMMETRIC_PUBLIC or REMOTE through the no-secrets import): on a
@@ -169,6 +169,30 @@ Theorem C13_mislabelled_symmetric_key_rejected_at_import :
     /\ write_no_secrets h = Err.
 Proof. exact mislabelled_symmetric_key_rejected_at_import. Qed.
 Print Assumptions C13_mislabelled_symmetric_key_rejected_at_import.
+
+(* REFUTED (finding, reported; the model transcribes the code as it is): "the
+   no-secrets APIs fail for every keyset containing private key material" is
+   false for composite ML-DSA PUBLIC keys: the classical_public_key slot may
+   hold the key data of a classical PRIVATE key (NewPublicKey only compares
+   the classical key's parameters).  All labels are ASYMMETRIC_PUBLIC and the
+   serializer writes ASYMMETRIC_PUBLIC, so the no-secrets import accepts the
+   keyset and WriteWithNoSecrets writes it, the private seed included; no
+   verifier can be made of the key.  Witness: an ML-DSA-65 / Ed25519 composite
+   public key whose classical slot holds an Ed25519 private key; confirmed on
+   the implementation (findings/composite_public_key_carries_private_key, C14
+   directed case composite-classical-slot-ED25519Raw). *)
+Theorem C13_public_composite_key_can_hold_a_private_key_refuted :
+  exists e,
+    cw_handle = [e]
+    /\ has_secrets cw_keyset = false
+    /\ handle_no_secrets cw_std (Some cw_keyset) = Ok cw_handle
+    /\ ekey e = PComposite false true [] (Some cw_seed)
+    /\ out_material e = km_public
+    /\ write_no_secrets cw_handle = Ok (ser_keyset (proto_of_handle cw_handle))
+    /\ is_infix cw_seed (ser_keyset (proto_of_handle cw_handle)) = true
+    /\ prim_ok cw_std (ekey e) = Ok false.
+Proof. exact public_composite_key_can_hold_a_private_key_refuted. Qed.
+Print Assumptions C13_public_composite_key_can_hold_a_private_key_refuted.
 
 (* Non-interference: KeysetInfo() - and String(), its text form, whatever the
    text encoder - depend only on (type url, status, id, prefix type, primary):
